@@ -159,6 +159,11 @@ BOOLEAN__xer_body_decode(const asn_TYPE_descriptor_t *td, void *sptr,
 
 	(void)td;
 
+	if(chunk_size == 0) {
+		/* White space before the <true/> or <false/> item. */
+		return XPBD_NOT_BODY_IGNORE;
+	}
+
 	if(chunk_size && p[0] == 0x3c /* '<' */) {
 		switch(xer_check_tag(chunk_buf, chunk_size, "false")) {
 		case XCT_BOTH:
